@@ -53,6 +53,13 @@ NOTES = {
     'C17_6': 'patch files whose rules are keyed on the new name of a renamed message (both orders), rename + retype chains',
     'C17_7': 'typedefs (one and two levels) of a struct that is dynamic only through a nested dynamic struct',
     'C20_6': 'isar case whose expressions and array sizes mention enumerators of several enums defined after them',
+    'C13_8': 'include cycles that close through another spelling of a file (sub/../, ./)',
+    'C15_8': 'limited arrays whose limit names an enumerator',
+    'C16_8': 'arrangement in which the main file\'s directory is also the first -I entry and nested includes live in a sub directory',
+    'C17_9': 'a patched name defined in two inputs of one run: each as when compiled alone',
+    'C17_10': 'patch rules applied to the prophy-text front-end, model layout against the equivalent schema',
+    'C20_9': 'array size x size2 over enumerators of two enums in a struct that a typedef pulls forward',
+    'C20_10': 'two isar inputs that spell an array-size expression alike over different constants',
     'C12_5': 'every rule breaker also as second input of a run whose first file uses the same names harmlessly',
     'C12_7': 'bisection of failing batches capped (the run took hours when nearly every state failed to compile)',
 }
